@@ -13,7 +13,7 @@
    10 [10; n; fk; vals]                             join
    12 [12; cs; L; R; tsrcs; form; snk_dts; sinks0; mapk; lu; ru; backing]   Session.ordered_merge_left with typed payloads
                                                     (tsrcs: [[dtype code; values]...]; dtype codes: 1 bool, n intn,
-                                                    100+n uintn, 200+n floatn; backing 0 memory / 1 HDF5)
+                                                    100+n uintn, 200+n floatn, 300+n Sn; backing 0 memory / 1 HDF5)
    13 [13; [case; ...]]                             a history: the cases one after the other on the same Session
    pandas.merge is instantiated with the relational join of Spec/JoinSpec.v (its assumed behaviour). *)
 From Coq Require Import ZArith List Bool.
@@ -72,9 +72,10 @@ Definition dtype_of (z:Z) : option dtype :=
   else if (1 <? z) && (z <=? 64) then Some (DInt z)
   else if (100 <? z) && (z <=? 164) then Some (DUInt (z - 100))
   else if (200 <? z) && (z <=? 264) then Some (DFloat (z - 200))
+  else if (300 <? z) && (z <=? 364) then Some (DBytes (z - 300))
   else None.
 Definition dtype_code (d:dtype) : Z :=
-  match d with DBool => 1 | DInt n => n | DUInt n => 100 + n | DFloat n => 200 + n end.
+  match d with DBool => 1 | DInt n => n | DUInt n => 100 + n | DFloat n => 200 + n | DBytes n => 300 + n end.
 Definition as_tcol (v:val) : option tcol :=
   match v with
   | VL [VZ c; d] => match dtype_of c, as_list d with Some dt, Some d => Some (dt, d) | _, _ => None end
